@@ -149,6 +149,9 @@ template <int S, int D> struct SplineWorld {
   }
   std::string check(std::string &digest) {
     Canon dg; std::string m = check_traj(S1->getTrajectory(), m1, "S1.getTrajectory()", dg);
+    // the *Copy getters hand out independent objects even when the caller binds the result to a reference
+    { const auto &r1 = S1->getTrajectoryCopy(); const auto &r2 = S1->getPPolyCopy(); if (m.empty() && ((const void *)&r1 == (const void *)&S1->getTrajectory() || (const void *)&r2 == (const void *)&S1->getPPoly())) m = "getTrajectoryCopy() / getPPolyCopy() returns a reference to the spline's own trajectory, not a copy";
+      if (m.empty() && m1 >= 0) { PP keep = r2; const auto &ps = problems(); const auto &q = ps[(m1 + 1) % 4]; Sp tmp = *S1; const auto &r3 = tmp.getPPolyCopy(); tmp.update(q.T, q.P, q.t0, q.bc); if (r3.getBreakpoints() != keep.getBreakpoints() || !mat_bits_equal(r3.getCoefficients(), keep.getCoefficients())) m = "a trajectory obtained through getPPolyCopy() changed when its spline was updated"; } }
     if (m.empty()) m = check_traj(T, mt, "T (trajectory copy)", dg);
     if (m.empty()) m = check_traj(S2->getTrajectory(), m2, "S2.getTrajectory()", dg);
     if (m.empty() && m2 >= 0) { const auto &p = problems()[m2]; Sp fresh(p.T, p.P, p.t0, p.bc); double e = S2->getEnergy(), w = fresh.getEnergy(); dg.d(e); if (!bits_equal(e, w)) m = "S2.getEnergy() differs from a fresh spline of its latest inputs"; }
